@@ -1,18 +1,18 @@
 (* C17 — Duden list, text, number and sorting functions meet their specification.
    One refinement theorem per covered function: the Gallina transcription of the DDP body / C primitive (coq/Lib/*Fns.v)
-   equals the Coq list-library expression of its doc comment on the documented domain (_spec); where the real code
-   violates its documentation the faithful model does too (_refuted, with a vm_compute witness) and _partial / _bounded
-   state what does hold (bounded = finite domain, the bound is part of the statement).
+   equals the Coq list-library expression of its doc comment on the documented domain (_spec).  _bounded = finite
+   domain, the bound is part of the statement (Text_Index_Von_Text, Spalte_Text, Finde_Subtext, Spalten_Spaltmenge_Text).
    args_unchanged: value parameters cannot change in a functional model (a function cannot modify its argument);
    the harness checks it on the real code by printing every argument after the call.
-   The statements below are the full statements of the lemmas of coq/Lib/*Proofs.v (as printed by Check); every theorem with
-   hypotheses is followed by a non-vacuity Example that applies it to concrete arguments with all hypotheses discharged. *)
+   The statements below are the full statements of the lemmas of coq/Lib/*Proofs.v (as printed by Check; regenerate
+   with checks/c17_mkprops.py); every theorem with hypotheses is followed by a non-vacuity Example that applies it
+   to concrete arguments with all hypotheses discharged. *)
 From Coq Require Import List ZArith Bool Lia Permutation Sorted.
 From DDP Require Import Lib.Base Lib.BaseProofs Lib.ListFns Lib.ListProofs Lib.NumFns Lib.NumProofs Lib.SortFns Lib.SortProofs Lib.TextFns Lib.TextProofs.
 Import ListNotations.
 Open Scope Z_scope.
 
-Ltac nv := cbn; first [lia | discriminate | reflexivity | (unfold len; cbn; lia) | (intros H; discriminate H)].
+Ltac nv := cbn; first [lia | discriminate | reflexivity | (unfold len; cbn; lia) | (intros H; discriminate H) | (left; discriminate) | (right; discriminate)].
 Ltac ov := repeat (apply Forall_cons; [cbn; auto 10|]); apply Forall_nil.
 
 Theorem C17_leere_spec : forall (A : Type) (l : list A), Leere_Liste l = [].
@@ -55,28 +55,25 @@ Proof. exact (@einfuegen_bereich_err). Qed.
 Print Assumptions C17_einfuegen_bereich_err.
 Example C17_einfuegen_bereich_err_nonvacuous := C17_einfuegen_bereich_err Z [1;2] 5 [7] ltac:(nv).
 
-Theorem C17_loesche_element_partial : forall (A : Type) (l : list A) (i : Z), 1 <= i <= len l -> Loesche_Element l i = Ok (firstn (Z.to_nat (i - 1)) l ++ skipn (Z.to_nat i) l).
-Proof. exact (@loesche_element_partial). Qed.
-Print Assumptions C17_loesche_element_partial.
-Example C17_loesche_element_partial_nonvacuous := C17_loesche_element_partial Z [1;2] 2 ltac:(nv).
+Theorem C17_loesche_element_spec : forall (A : Type) (l : list A) (i : Z), 1 <= i <= len l -> Loesche_Element l i = Ok (firstn (Z.to_nat (i - 1)) l ++ skipn (Z.to_nat i) l).
+Proof. exact (@loesche_element_spec). Qed.
+Print Assumptions C17_loesche_element_spec.
+Example C17_loesche_element_spec_nonvacuous := C17_loesche_element_spec Z [1;2] 2 ltac:(nv).
 
-Theorem C17_loesche_element_refuted : exists (l : list Z) (i : Z), ~ 1 <= i <= len l /\ Loesche_Element l i <> Err.
-Proof. exact (@loesche_element_refuted). Qed.
-Print Assumptions C17_loesche_element_refuted.
+Theorem C17_loesche_element_err : forall (A : Type) (l : list A) (i : Z), i < 1 \/ len l < i -> Loesche_Element l i = Err.
+Proof. exact (@loesche_element_err). Qed.
+Print Assumptions C17_loesche_element_err.
+Example C17_loesche_element_err_nonvacuous := C17_loesche_element_err Z [1;2] 0 ltac:(nv).
 
-Theorem C17_loesche_bereich_partial : forall (A : Type) (l : list A) (s e : Z), 1 <= s -> s <= e -> e <= len l -> Loesche_Bereich l s e = Ok (firstn (Z.to_nat (s - 1)) l ++ skipn (Z.to_nat e) l).
-Proof. exact (@loesche_bereich_partial). Qed.
-Print Assumptions C17_loesche_bereich_partial.
-Example C17_loesche_bereich_partial_nonvacuous := C17_loesche_bereich_partial Z [1;2;3] 2 3 ltac:(nv) ltac:(nv) ltac:(nv).
+Theorem C17_loesche_bereich_spec : forall (A : Type) (l : list A) (s e : Z), 1 <= s -> s <= e -> e <= len l -> Loesche_Bereich l s e = Ok (firstn (Z.to_nat (s - 1)) l ++ skipn (Z.to_nat e) l).
+Proof. exact (@loesche_bereich_spec). Qed.
+Print Assumptions C17_loesche_bereich_spec.
+Example C17_loesche_bereich_spec_nonvacuous := C17_loesche_bereich_spec Z [1;2;3] 2 3 ltac:(nv) ltac:(nv) ltac:(nv).
 
-Theorem C17_loesche_bereich_crossed : forall (A : Type) (l : list A) (s e : Z), 0 < len l -> e < s -> Loesche_Bereich l s e = Err.
-Proof. exact (@loesche_bereich_crossed). Qed.
-Print Assumptions C17_loesche_bereich_crossed.
-Example C17_loesche_bereich_crossed_nonvacuous := C17_loesche_bereich_crossed Z [1;2] 2 1 ltac:(nv) ltac:(nv).
-
-Theorem C17_loesche_bereich_refuted : exists (l : list Z) (s e : Z), ~ (1 <= s /\ s <= e <= len l) /\ Loesche_Bereich l s e <> Err.
-Proof. exact (@loesche_bereich_refuted). Qed.
-Print Assumptions C17_loesche_bereich_refuted.
+Theorem C17_loesche_bereich_err : forall (A : Type) (l : list A) (s e : Z), ~ (1 <= s /\ s <= e <= len l) -> Loesche_Bereich l s e = Err.
+Proof. exact (@loesche_bereich_err). Qed.
+Print Assumptions C17_loesche_bereich_err.
+Example C17_loesche_bereich_err_nonvacuous := C17_loesche_bereich_err Z [1;2;3] 2 5 ltac:(nv).
 
 Theorem C17_fuellen_spec : forall (A : Type) (l : list A) (x : A), Fuellen_Liste l x = Ok (repeat x (length l)).
 Proof. exact (@fuellen_spec). Qed.
@@ -218,23 +215,14 @@ Theorem C17_sign_spec : forall w : Z, Sign w = Z.sgn w.
 Proof. exact (@sign_spec). Qed.
 Print Assumptions C17_sign_spec.
 
-Theorem C17_ggt_spec : forall a b : Z, 0 <= a -> 0 <= b -> Groesster_Gemeinsamer_Teiler a b = Ok (Z.gcd a b).
+Theorem C17_ggt_spec : forall a b : Z, Groesster_Gemeinsamer_Teiler a b = Ok (Z.gcd a b).
 Proof. exact (@ggt_spec). Qed.
 Print Assumptions C17_ggt_spec.
-Example C17_ggt_spec_nonvacuous := C17_ggt_spec 4 6 ltac:(nv) ltac:(nv).
 
-Theorem C17_ggt_refuted : exists a b r : Z, Groesster_Gemeinsamer_Teiler a b = Ok r /\ r <> Z.gcd a b.
-Proof. exact (@ggt_refuted). Qed.
-Print Assumptions C17_ggt_refuted.
-
-Theorem C17_kgv_partial : forall a b : Z, 0 < a -> 0 < b -> in_i64 (a * b) -> Kleinster_Gemeinsamer_Teiler a b = Ok (Z.lcm a b).
-Proof. exact (@kgv_partial). Qed.
-Print Assumptions C17_kgv_partial.
-Example C17_kgv_partial_nonvacuous := C17_kgv_partial 4 6 ltac:(nv) ltac:(nv) ltac:(unfold in_i64, two63; cbn; lia).
-
-Theorem C17_kgv_refuted : exists a b r : Z, Kleinster_Gemeinsamer_Teiler a b = Ok r /\ r <> Z.lcm a b.
-Proof. exact (@kgv_refuted). Qed.
-Print Assumptions C17_kgv_refuted.
+Theorem C17_kgv_spec : forall a b : Z, a <> 0 \/ b <> 0 -> in_i64 (a * b) -> Kleinster_Gemeinsamer_Teiler a b = Ok (Z.lcm a b).
+Proof. exact (@kgv_spec). Qed.
+Print Assumptions C17_kgv_spec.
+Example C17_kgv_spec_nonvacuous := C17_kgv_spec 4 (-6) ltac:(nv) ltac:(unfold in_i64, two63; cbn; lia).
 
 Theorem C17_ist_teilbar_spec : forall a b : Z, b <> 0 -> exists r : bool, Ist_Teilbar a b = Ok r /\ (r = true <-> (b | a)).
 Proof. exact (@ist_teilbar_spec). Qed.
@@ -263,28 +251,25 @@ Theorem C17_trunc_spec : forall n d : Z, Trunc n d = n ÷ d * d.
 Proof. exact (@trunc_spec). Qed.
 Print Assumptions C17_trunc_spec.
 
-Theorem C17_floor_partial : forall n d : Z, 0 < d -> 0 <= n -> Floor n d = n / d * d.
-Proof. exact (@floor_partial). Qed.
-Print Assumptions C17_floor_partial.
-Example C17_floor_partial_nonvacuous := C17_floor_partial 5 4 ltac:(nv) ltac:(nv).
+Theorem C17_floor_spec : forall n d : Z, 0 < d -> Floor n d = n / d * d.
+Proof. exact (@floor_spec). Qed.
+Print Assumptions C17_floor_spec.
+Example C17_floor_spec_nonvacuous := C17_floor_spec (-9) 4 ltac:(nv).
 
 Theorem C17_floor_integers : forall n d : Z, 0 < d -> (d | n) -> Floor n d = n.
 Proof. exact (@floor_integers). Qed.
 Print Assumptions C17_floor_integers.
 Example C17_floor_integers_nonvacuous := C17_floor_integers (-8) 4 ltac:(nv) ltac:(exists (-2); lia).
 
-Theorem C17_floor_refuted : exists n d : Z, 0 < d /\ Floor n d <> n / d * d.
-Proof. exact (@floor_refuted). Qed.
-Print Assumptions C17_floor_refuted.
+Theorem C17_ceil_spec : forall n d : Z, 0 < d -> Ceil n d = - (- n / d) * d.
+Proof. exact (@ceil_spec). Qed.
+Print Assumptions C17_ceil_spec.
+Example C17_ceil_spec_nonvacuous := C17_ceil_spec (-9) 4 ltac:(nv).
 
-Theorem C17_ceil_partial : forall n d : Z, 0 < d -> 0 < n -> n mod d <> 0 -> Ceil n d = (n / d + 1) * d.
-Proof. exact (@ceil_partial). Qed.
-Print Assumptions C17_ceil_partial.
-Example C17_ceil_partial_nonvacuous := C17_ceil_partial 5 4 ltac:(nv) ltac:(nv) ltac:(cbn; lia).
-
-Theorem C17_ceil_refuted : exists n d : Z, 0 < d /\ (d | n) /\ Ceil n d <> n.
-Proof. exact (@ceil_refuted). Qed.
-Print Assumptions C17_ceil_refuted.
+Theorem C17_ceil_integers : forall n d : Z, 0 < d -> (d | n) -> Ceil n d = n.
+Proof. exact (@ceil_integers). Qed.
+Print Assumptions C17_ceil_integers.
+Example C17_ceil_integers_nonvacuous := C17_ceil_integers (-8) 4 ltac:(nv) ltac:(exists (-2); lia).
 
 Theorem C17_hoechste_spec : forall l : list Z, l <> [] -> Forall in_i64 l -> In (Hoechste_ListeZ l) l /\ (forall x : Z, In x l -> x <= Hoechste_ListeZ l).
 Proof. exact (@hoechste_spec). Qed.
@@ -296,21 +281,13 @@ Proof. exact (@kleinste_spec). Qed.
 Print Assumptions C17_kleinste_spec.
 Example C17_kleinste_spec_nonvacuous := C17_kleinste_spec [1;2] ltac:(nv) ltac:(repeat constructor; unfold in_i64, two63; lia).
 
-Theorem C17_mindestens_partial : forall (x : Z) (l : list Z), Mindestens_Liste x l = (count (fun z : Z => z <=? x) l, len l).
-Proof. exact (@mindestens_partial). Qed.
-Print Assumptions C17_mindestens_partial.
+Theorem C17_mindestens_spec : forall (x : Z) (l : list Z), Mindestens_Liste x l = (count (fun z : Z => z >=? x) l, len l).
+Proof. exact (@mindestens_spec). Qed.
+Print Assumptions C17_mindestens_spec.
 
-Theorem C17_mindestens_refuted : exists (x : Z) (l : list Z), l <> [] /\ fst (Mindestens_Liste x l) <> count (fun z : Z => z >=? x) l.
-Proof. exact (@mindestens_refuted). Qed.
-Print Assumptions C17_mindestens_refuted.
-
-Theorem C17_hoechstens_partial : forall (x : Z) (l : list Z), Hoechstens_Liste x l = (count (fun z : Z => z >=? x) l, len l).
-Proof. exact (@hoechstens_partial). Qed.
-Print Assumptions C17_hoechstens_partial.
-
-Theorem C17_hoechstens_refuted : exists (x : Z) (l : list Z), l <> [] /\ fst (Hoechstens_Liste x l) <> count (fun z : Z => z <=? x) l.
-Proof. exact (@hoechstens_refuted). Qed.
-Print Assumptions C17_hoechstens_refuted.
+Theorem C17_hoechstens_spec : forall (x : Z) (l : list Z), Hoechstens_Liste x l = (count (fun z : Z => z <=? x) l, len l).
+Proof. exact (@hoechstens_spec). Qed.
+Print Assumptions C17_hoechstens_spec.
 
 Theorem C17_zwischen_spec : forall (x y : Z) (l : list Z), Zwischen_Liste x y l = (count (fun z : Z => (z >=? x) && (z <=? y)) l, len l).
 Proof. exact (@zwischen_spec). Qed.
@@ -349,14 +326,9 @@ Theorem C17_trim_ende_spec : forall (t : text) (z : Z), Trim_Ende t z = Ok (rev 
 Proof. exact (@trim_ende_spec). Qed.
 Print Assumptions C17_trim_ende_spec.
 
-Theorem C17_trim_bounded : forall (t : text) (z : Z), over abc t -> In z abc -> (length t <= 8)%nat -> length t <> 1%nat -> Trim t z = Ok (strip_ref z t).
-Proof. exact (@trim_bounded). Qed.
-Print Assumptions C17_trim_bounded.
-Example C17_trim_bounded_nonvacuous := C17_trim_bounded [97;98] 97 ltac:(ov) ltac:(cbn; auto 10) ltac:(nv) ltac:(nv).
-
-Theorem C17_trim_refuted : exists (t : text) (z : Z), Trim t z = Ok [] /\ strip_ref z t = t /\ t <> [].
-Proof. exact (@trim_refuted). Qed.
-Print Assumptions C17_trim_refuted.
+Theorem C17_trim_spec : forall (t : text) (z : Z), Trim t z = Ok (strip_ref z t).
+Proof. exact (@trim_spec). Qed.
+Print Assumptions C17_trim_spec.
 
 Theorem C17_text_enthaelt_buchstabe_In : forall (t : text) (z : Z), Text_Enthaelt_Buchstabe t z = true <-> In z t.
 Proof. exact (@text_enthaelt_buchstabe_In). Qed.
@@ -380,14 +352,10 @@ Proof. exact (@text_anzahl_text_spec). Qed.
 Print Assumptions C17_text_anzahl_text_spec.
 Example C17_text_anzahl_text_spec_nonvacuous := C17_text_anzahl_text_spec [97;98] [98] ltac:(nv).
 
-Theorem C17_nicht_ueberlappend_refuted : exists (t : text) (s : list Z), s <> [] /\ Text_Anzahl_Text_Nicht_Ueberlappend t s = Ok 0 /\ (exists pre suf : list Z, t = pre ++ s ++ suf).
-Proof. exact (@nicht_ueberlappend_refuted). Qed.
-Print Assumptions C17_nicht_ueberlappend_refuted.
-
-Theorem C17_nicht_ueberlappend_bounded : forall t s : text, over abc t -> over abc s -> (length t <= 6)%nat -> (length s <= 3)%nat -> s <> [] -> t <> [] -> Text_Anzahl_Text_Nicht_Ueberlappend t s = Ok (aligned_count t s).
-Proof. exact (@nicht_ueberlappend_bounded). Qed.
-Print Assumptions C17_nicht_ueberlappend_bounded.
-Example C17_nicht_ueberlappend_bounded_nonvacuous := C17_nicht_ueberlappend_bounded [97;98] [98] ltac:(ov) ltac:(ov) ltac:(nv) ltac:(nv) ltac:(nv) ltac:(nv).
+Theorem C17_nicht_ueberlappend_spec : forall (t : text) (s : list Z), s <> [] -> Text_Anzahl_Text_Nicht_Ueberlappend t s = Ok (nonoverlap_ref (length t + 1) s t).
+Proof. exact (@nicht_ueberlappend_spec). Qed.
+Print Assumptions C17_nicht_ueberlappend_spec.
+Example C17_nicht_ueberlappend_spec_nonvacuous := C17_nicht_ueberlappend_spec [97;98] [98] ltac:(nv).
 
 Theorem C17_beginnt_mit_buchstabe_spec : forall (t : text) (b : Z), Beginnt_Mit_Buchstabe t b = Ok match t with | [] => false | c :: _ => c =? b end.
 Proof. exact (@beginnt_mit_buchstabe_spec). Qed.
@@ -435,41 +403,23 @@ Theorem C17_text_leeren_spec : forall t : text, Text_Leeren t = [].
 Proof. exact (@text_leeren_spec). Qed.
 Print Assumptions C17_text_leeren_spec.
 
-Theorem C17_text_einfuegen_partial : forall (t : list Z) (i : Z) (e : text), 2 <= i <= len t -> Text_In_Text_Einfuegen t i e = Ok (firstn (Z.to_nat (i - 1)) t ++ e ++ skipn (Z.to_nat (i - 1)) t).
-Proof. exact (@text_einfuegen_partial). Qed.
-Print Assumptions C17_text_einfuegen_partial.
-Example C17_text_einfuegen_partial_nonvacuous := C17_text_einfuegen_partial [97;98] 2 [120] ltac:(nv).
+Theorem C17_text_einfuegen_spec : forall (t : text) (i : Z) (e : text), Text_In_Text_Einfuegen t i e = Ok (firstn (Z.to_nat (clampZ i 1 (len t + 1) - 1)) t ++ e ++ skipn (Z.to_nat (clampZ i 1 (len t + 1) - 1)) t).
+Proof. exact (@text_einfuegen_spec). Qed.
+Print Assumptions C17_text_einfuegen_spec.
 
-Theorem C17_text_einfuegen_refuted : exists (t : list Z) (i : Z) (e : text), 1 <= i <= len t /\ Text_In_Text_Einfuegen t i e <> Ok (firstn (Z.to_nat (i - 1)) t ++ e ++ skipn (Z.to_nat (i - 1)) t).
-Proof. exact (@text_einfuegen_refuted). Qed.
-Print Assumptions C17_text_einfuegen_refuted.
+Theorem C17_buchstabe_einfuegen_spec : forall (t : text) (i e : Z), Buchstabe_In_Text_Einfuegen t i e = Ok (firstn (Z.to_nat (clampZ i 1 (len t + 1) - 1)) t ++ e :: skipn (Z.to_nat (clampZ i 1 (len t + 1) - 1)) t).
+Proof. exact (@buchstabe_einfuegen_spec). Qed.
+Print Assumptions C17_buchstabe_einfuegen_spec.
 
-Theorem C17_buchstabe_einfuegen_partial : forall (t : list Z) (i e : Z), 2 <= i <= len t -> Buchstabe_In_Text_Einfuegen t i e = Ok (firstn (Z.to_nat (i - 1)) t ++ e :: skipn (Z.to_nat (i - 1)) t).
-Proof. exact (@buchstabe_einfuegen_partial). Qed.
-Print Assumptions C17_buchstabe_einfuegen_partial.
-Example C17_buchstabe_einfuegen_partial_nonvacuous := C17_buchstabe_einfuegen_partial [97;98] 2 120 ltac:(nv).
+Theorem C17_loesche_text_spec : forall (t : list Z) (i : Z), 1 <= i <= len t -> Loesche_Text t i = Ok (firstn (Z.to_nat (i - 1)) t ++ skipn (Z.to_nat i) t).
+Proof. exact (@loesche_text_spec). Qed.
+Print Assumptions C17_loesche_text_spec.
+Example C17_loesche_text_spec_nonvacuous := C17_loesche_text_spec [97;98] 1 ltac:(nv).
 
-Theorem C17_buchstabe_einfuegen_refuted : exists (t : list Z) (i e : Z), 1 <= i <= len t /\ Buchstabe_In_Text_Einfuegen t i e <> Ok (firstn (Z.to_nat (i - 1)) t ++ e :: skipn (Z.to_nat (i - 1)) t).
-Proof. exact (@buchstabe_einfuegen_refuted). Qed.
-Print Assumptions C17_buchstabe_einfuegen_refuted.
-
-Theorem C17_loesche_text_partial : forall (t : list Z) (i : Z), 2 <= i <= len t -> Loesche_Text t i = Ok (firstn (Z.to_nat (i - 1)) t ++ skipn (Z.to_nat i) t).
-Proof. exact (@loesche_text_partial). Qed.
-Print Assumptions C17_loesche_text_partial.
-Example C17_loesche_text_partial_nonvacuous := C17_loesche_text_partial [97;98] 2 ltac:(nv).
-
-Theorem C17_loesche_text_refuted : exists (t : list Z) (i : Z), 1 <= i <= len t /\ Loesche_Text t i <> Ok (firstn (Z.to_nat (i - 1)) t ++ skipn (Z.to_nat i) t).
-Proof. exact (@loesche_text_refuted). Qed.
-Print Assumptions C17_loesche_text_refuted.
-
-Theorem C17_loesche_text_bereich_partial : forall (t : list Z) (s e : Z), 1 <= s -> s <= e -> e < len t -> Loesche_Text_Bereich t s e = Ok (firstn (Z.to_nat (s - 1)) t ++ skipn (Z.to_nat e) t).
-Proof. exact (@loesche_text_bereich_partial). Qed.
-Print Assumptions C17_loesche_text_bereich_partial.
-Example C17_loesche_text_bereich_partial_nonvacuous := C17_loesche_text_bereich_partial [97;98;99] 1 2 ltac:(nv) ltac:(nv) ltac:(nv).
-
-Theorem C17_loesche_text_bereich_refuted : exists (t : list Z) (s e : Z), 1 <= s /\ s <= e /\ e <= len t /\ Loesche_Text_Bereich t s e <> Ok (firstn (Z.to_nat (s - 1)) t ++ skipn (Z.to_nat e) t).
-Proof. exact (@loesche_text_bereich_refuted). Qed.
-Print Assumptions C17_loesche_text_bereich_refuted.
+Theorem C17_loesche_text_bereich_spec : forall (t : list Z) (s e : Z), 1 <= s -> s <= e -> e <= len t -> Loesche_Text_Bereich t s e = Ok (firstn (Z.to_nat (s - 1)) t ++ skipn (Z.to_nat e) t).
+Proof. exact (@loesche_text_bereich_spec). Qed.
+Print Assumptions C17_loesche_text_bereich_spec.
+Example C17_loesche_text_bereich_spec_nonvacuous := C17_loesche_text_bereich_spec [97;98;99] 2 3 ltac:(nv) ltac:(nv) ltac:(nv).
 
 Theorem C17_fuelle_text_spec : forall (t : text) (x : Z), Fuelle_Text t x = Ok (repeat x (length t)).
 Proof. exact (@fuelle_text_spec). Qed.
@@ -487,14 +437,14 @@ Theorem C17_text_index_von_buchstabe_spec : forall (t : text) (z : Z), Text_Inde
 Proof. exact (@text_index_von_buchstabe_spec). Qed.
 Print Assumptions C17_text_index_von_buchstabe_spec.
 
-Theorem C17_text_index_von_text_bounded : forall t s : text, over abc t -> over abc s -> (length t <= 6)%nat -> (length s <= 3)%nat -> s <> [] -> forall r : Z, Text_Index_Von_Text t s = Ok r -> r = ref_index t s.
+Theorem C17_text_index_von_text_bounded : forall t s : text, over abc t -> over abc s -> (length t <= 7)%nat -> (length s <= 3)%nat -> s <> [] -> t <> [] -> Text_Index_Von_Text t s = Ok (ref_index t s).
 Proof. exact (@text_index_von_text_bounded). Qed.
 Print Assumptions C17_text_index_von_text_bounded.
-Example C17_text_index_von_text_bounded_nonvacuous := C17_text_index_von_text_bounded [97;98] [98] ltac:(ov) ltac:(ov) ltac:(nv) ltac:(nv) ltac:(nv) 2 ltac:(vm_compute; reflexivity).
+Example C17_text_index_von_text_bounded_nonvacuous := C17_text_index_von_text_bounded [99;99;99;97] [97;98] ltac:(ov) ltac:(ov) ltac:(nv) ltac:(nv) ltac:(nv) ltac:(nv).
 
-Theorem C17_text_index_von_text_refuted : exists (t : text) (s : list Z), s <> [] /\ Text_Index_Von_Text t s = Err /\ ref_index t s = -1.
-Proof. exact (@text_index_von_text_refuted). Qed.
-Print Assumptions C17_text_index_von_text_refuted.
+Theorem C17_text_index_von_text_leer : forall s : text, Text_Index_Von_Text [] s = Ok (-1).
+Proof. exact (@text_index_von_text_leer). Qed.
+Print Assumptions C17_text_index_von_text_leer.
 
 Theorem C17_ist_text_leer_spec : forall t : text, Ist_Text_Leer t = true <-> t = [].
 Proof. exact (@ist_text_leer_spec). Qed.
@@ -516,36 +466,28 @@ Theorem C17_polster_rechts_spec : forall (t : text) (z n : Z), Polster_Rechts t 
 Proof. exact (@polster_rechts_spec). Qed.
 Print Assumptions C17_polster_rechts_spec.
 
-Theorem C17_spalte_bounded : forall (t : text) (z : Z), over abc t -> In z abc -> (length t <= 7)%nat -> t <> [] -> last t 0 <> z -> Spalte t z = Ok (split_ref z t).
-Proof. exact (@spalte_bounded). Qed.
-Print Assumptions C17_spalte_bounded.
-Example C17_spalte_bounded_nonvacuous := C17_spalte_bounded [98;97] 98 ltac:(ov) ltac:(cbn; auto 10) ltac:(nv) ltac:(nv) ltac:(nv).
+Theorem C17_spalte_spec : forall (t : list Z) (z : Z), t <> [] -> Spalte t z = Ok (split_ref z t).
+Proof. exact (@spalte_spec). Qed.
+Print Assumptions C17_spalte_spec.
+Example C17_spalte_spec_nonvacuous := C17_spalte_spec [97;44] 44 ltac:(nv).
 
-Theorem C17_spalte_refuted : exists (t : list Z) (z : Z), t <> [] /\ Spalte t z <> Ok (split_ref z t).
-Proof. exact (@spalte_refuted). Qed.
-Print Assumptions C17_spalte_refuted.
+Theorem C17_spalte_leer : forall z : Z, Spalte [] z = Ok [].
+Proof. exact (@spalte_leer). Qed.
+Print Assumptions C17_spalte_leer.
 
-Theorem C17_spalte_text_bounded : forall t s : text, over abc t -> over abc s -> (length t <= 6)%nat -> (length s <= 3)%nat -> 1 < len s -> existsb (occ_b t s) (positions t s) = false -> forall l : list text, Spalte_Text t s = Ok l -> l = [t].
+Theorem C17_spalte_text_bounded : forall t s : text, over abc t -> over abc s -> (length t <= 7)%nat -> (length s <= 3)%nat -> t <> [] -> 1 < len s -> Spalte_Text t s = Ok (split_text_ref (length t + 1) s t []).
 Proof. exact (@spalte_text_bounded). Qed.
 Print Assumptions C17_spalte_text_bounded.
-Example C17_spalte_text_bounded_nonvacuous := C17_spalte_text_bounded [97;98;99] [97;97] ltac:(ov) ltac:(ov) ltac:(nv) ltac:(nv) ltac:(nv) ltac:(vm_compute; reflexivity) [[97;98;99]] ltac:(vm_compute; reflexivity).
+Example C17_spalte_text_bounded_nonvacuous := C17_spalte_text_bounded [97;98;99;98;99] [98;99] ltac:(ov) ltac:(ov) ltac:(nv) ltac:(nv) ltac:(nv) ltac:(nv).
 
-Theorem C17_spalte_text_refuted : exists t s : text, Spalte_Text t s = Ok [[120]; [97; 98]] /\ t = [120] ++ s ++ [] ++ s ++ [].
-Proof. exact (@spalte_text_refuted). Qed.
-Print Assumptions C17_spalte_text_refuted.
+Theorem C17_spalte_text_einzeln : forall (t : text) (c : Z), Spalte_Text t [c] = Spalte t c.
+Proof. exact (@spalte_text_einzeln). Qed.
+Print Assumptions C17_spalte_text_einzeln.
 
-Theorem C17_finde_subtext_bounded : forall t s : text, over abc t -> over abc s -> (length t <= 6)%nat -> (length s <= 3)%nat -> s <> [] -> length t <> length s -> forall l : list Z, Finde_Subtext t s = Ok l -> forall i : Z, In i l -> 1 <= i /\ occ_b t s (Z.to_nat (i - 1)) = true.
+Theorem C17_finde_subtext_bounded : forall t s : text, over abc t -> over abc s -> (length t <= 7)%nat -> (length s <= 3)%nat -> s <> [] -> t <> [] -> Finde_Subtext t s = Ok (finde_ref (length t + 1) s t 1).
 Proof. exact (@finde_subtext_bounded). Qed.
 Print Assumptions C17_finde_subtext_bounded.
-Example C17_finde_subtext_bounded_nonvacuous := C17_finde_subtext_bounded [97;98;97] [97] ltac:(ov) ltac:(ov) ltac:(nv) ltac:(nv) ltac:(nv) ltac:(nv) [1;3] ltac:(vm_compute; reflexivity) 1 ltac:(left; reflexivity).
-
-Theorem C17_finde_subtext_refuted_gleichlang : exists t s : text, Finde_Subtext t s = Ok [1] /\ occ_b t s 0 = false.
-Proof. exact (@finde_subtext_refuted_gleichlang). Qed.
-Print Assumptions C17_finde_subtext_refuted_gleichlang.
-
-Theorem C17_finde_subtext_refuted_ende : exists t s : text, Finde_Subtext t s = Ok [1; 3] /\ occ_b t s 3 = true.
-Proof. exact (@finde_subtext_refuted_ende). Qed.
-Print Assumptions C17_finde_subtext_refuted_ende.
+Example C17_finde_subtext_bounded_nonvacuous := C17_finde_subtext_bounded [97;98;97;97] [97] ltac:(ov) ltac:(ov) ltac:(nv) ltac:(nv) ltac:(nv) ltac:(nv).
 
 Theorem C17_verbinden_text_spec : forall (l : list text) (z : Z), Verbinden_Text l z = Ok (join (fun t : text => t) z l).
 Proof. exact (@verbinden_text_spec). Qed.
@@ -565,14 +507,9 @@ Proof. exact (@hamming_ungleich). Qed.
 Print Assumptions C17_hamming_ungleich.
 Example C17_hamming_ungleich_nonvacuous := C17_hamming_ungleich [97] [] ltac:(nv).
 
-Theorem C17_vergleiche_partial : forall t1 t2 : list Z, t1 <> [] -> t2 <> [] -> exists r : Z, Vergleiche_Text t1 t2 = Ok r /\ (t1 = t2 -> r = 0) /\ (forall (q : list Z) (a b : Z) (r1 r2 : list Z), t1 = q ++ a :: r1 -> t2 = q ++ b :: r2 -> a <> b -> r = a - b) /\ (forall (c : Z) (r2 : list Z), t2 = t1 ++ c :: r2 -> r = -1) /\ (forall (c : Z) (r1 : list Z), t1 = t2 ++ c :: r1 -> r = 1).
-Proof. exact (@vergleiche_partial). Qed.
-Print Assumptions C17_vergleiche_partial.
-Example C17_vergleiche_partial_nonvacuous := C17_vergleiche_partial [97] [98] ltac:(nv) ltac:(nv).
-
-Theorem C17_vergleiche_refuted : exists t1 t2 : text, t1 <> t2 /\ Vergleiche_Text t1 t2 = Err.
-Proof. exact (@vergleiche_refuted). Qed.
-Print Assumptions C17_vergleiche_refuted.
+Theorem C17_vergleiche_spec : forall t1 t2 : text, exists r : Z, Vergleiche_Text t1 t2 = Ok r /\ (t1 = t2 -> r = 0) /\ (forall (q : list Z) (a b : Z) (r1 r2 : list Z), t1 = q ++ a :: r1 -> t2 = q ++ b :: r2 -> a <> b -> r = a - b) /\ (forall (c : Z) (r2 : list Z), t2 = t1 ++ c :: r2 -> r = -1) /\ (forall (c : Z) (r1 : list Z), t1 = t2 ++ c :: r1 -> r = 1).
+Proof. exact (@vergleiche_spec). Qed.
+Print Assumptions C17_vergleiche_spec.
 
 Theorem C17_spaltmenge_bounded : forall t m : text, over abc t -> over abc m -> (length t <= 6)%nat -> (length m <= 2)%nat -> t <> [] -> m <> [] -> Spalten_Spaltmenge_Text_Ref t m = Ok (fields_ref m t []).
 Proof. exact (@spaltmenge_bounded). Qed.
